@@ -14,7 +14,7 @@ HARNESS = r"""
 use std::ffi::OsStr;
 use std::path::Path;
 // ======== real text: condition of the `if` that guards remove_file in clean_command (`path.file_name()` -> parameter) ========
-pub fn pred(name: &OsStr) -> bool {
+pub fn pred(verif_entry_name: &OsStr) -> bool {
     PRED
 }
 
@@ -79,10 +79,11 @@ class CleanUnit:
         var = text(loop["v"])
         p_if = Pat("if $$cond { $$then }")
         cond = then = None
+        prefix = []
         for i in range(len(lb)):
             r = p_if.match_at(lb, i)
-            if r:
-                cond, then = r[1]["cond"], r[1]["then"]; break
+            if r and (i == 0 or lb[i - 1] in (";", "}")):
+                cond, then = r[1]["cond"], r[1]["then"]; prefix = lb[:i]; break
         if cond is None:
             raise Undecided("clean_command: guarding `if` not found in the loop")
         # ---- scan of the frame (assumption, reported as such)
@@ -90,11 +91,16 @@ class CleanUnit:
         scan_ok = (all_t.count("remove_file") == 1 and " ".join(then).count("remove_file") == 1
                    and "remove_dir" not in all_t and "rename" not in all_t and "read_dir" in all_t
                    and re.search(r"remove_file \( %s \. path \( \) \)" % re.escape(var), " ".join(then)) is not None)
-        # ---- predicate: `VAR.file_name()` -> name
+        # ---- predicate: statements of the loop body in front of the `if` + its condition; `VAR.file_name()` -> the parameter
         log = []
-        cond2 = Rule("Kt", f"{var} . file_name ( )", "name", count="+", why="directory entry's file name -> parameter").apply(list(cond), log)
-        if var in cond2:
-            raise Undecided("clean_command: the condition uses the directory entry beyond file_name(); predicate not extractable")
+        prefix = Rule("Kt", f"let {var} = {var} ? ;", "", why="unwrapping of the directory entry dropped (the predicate takes its name)").apply(list(prefix), log)
+        pre2 = Rule("Kt", f"{var} . file_name ( )", "verif_entry_name", why="directory entry's file name -> parameter").apply(prefix, log)
+        cond2 = Rule("Kt", f"{var} . file_name ( )", "verif_entry_name", why="directory entry's file name -> parameter").apply(list(cond), log)
+        if var in cond2 or var in pre2 or "remove_file" in " ".join(pre2):
+            raise Undecided("clean_command: the selection uses the directory entry beyond file_name(); predicate not extractable")
+        if "verif_entry_name" not in pre2 + cond2:
+            raise Undecided("clean_command: the selection does not look at the entry's file name; predicate not extractable")
+        cond2 = pre2 + cond2
         thorough = tier == "thorough"
         nbytes = 6 if thorough else 5
         alphabet = "c == b'a' || c == b'm' || c == b'M' || c == b'.' || c == b'~'" + (" || c == b' ' || c == 0xC3 || c == 0xA9" if thorough else "")
